@@ -171,8 +171,59 @@ func kindName(k reflect.Kind) string {
 	return "other"
 }
 
+// valuePool: the dynamic types of every context and message value the harness hands to a call
+var valuePool = func() []reflect.Type {
+	seen := map[reflect.Type]bool{}
+	var out []reflect.Type
+	add := func(v interface{}) {
+		if v == nil {
+			return
+		}
+		if t := reflect.TypeOf(v); !seen[t] {
+			seen[t] = true
+			out = append(out, t)
+		}
+	}
+	for _, n := range ctxNames {
+		add(mkCtx(n))
+	}
+	for _, n := range argNames {
+		add(mkArg(n))
+	}
+	sort.Slice(out, func(i, j int) bool { return out[i].String() < out[j].String() })
+	return out
+}()
+
+// paramFacts: kind / Implements(IContext) / HandlerCBFunc assignable / String() and, for pointer types
+// (the only ones the predicate can admit as context or message), the OTHER types of the value pool
+// that reflect says are assignable to it, and the type reflect.New(t.Elem()) has where that is not t
 func paramFacts(t reflect.Type) string {
-	return fmt.Sprintf("%s/%d/%d/%s", kindName(t.Kind()), hx.B2i(t.Implements(api.TypeOfContext)), hx.B2i(cbType.AssignableTo(t)), hx16(t.String()))
+	s := fmt.Sprintf("%s/%d/%d/%s", kindName(t.Kind()), hx.B2i(t.Implements(api.TypeOfContext)), hx.B2i(cbType.AssignableTo(t)), hx16(t.String()))
+	if t.Kind() != reflect.Ptr && t.Kind() != reflect.Struct {
+		return s
+	}
+	var asg []string
+	for _, p := range valuePool {
+		if p != t && p.AssignableTo(t) {
+			asg = append(asg, hx16(p.String()))
+		}
+	}
+	nid, zero := "-", "-"
+	if t.Kind() == reflect.Ptr {
+		if nt := reflect.PtrTo(t.Elem()); nt != t {
+			nid = hx16(nt.String())
+		}
+	} else {
+		zero = digest(reflect.Zero(t).Interface()) // what a nil argument becomes (makeValueMaybeNil)
+	}
+	if len(asg) == 0 && nid == "-" && zero == "-" {
+		return s
+	}
+	a := "-"
+	if len(asg) > 0 {
+		a = strings.Join(asg, ",")
+	}
+	return s + "/" + a + "/" + nid + "/" + zero
 }
 
 func methodFacts(m reflect.Method) string {
@@ -230,6 +281,7 @@ var shapePool = []reflect.Type{
 	reflect.TypeOf(&msgs.TestHello{}), reflect.TypeOf([2]int{}), reflect.TypeOf(make(chan int)),
 	cbType, reflect.TypeOf(func(error, interface{}) {}), reflect.TypeOf(MyCB(nil)), reflect.TypeOf(func(int) {}), reflect.TypeOf(func() {}),
 	reflect.TypeOf(func(error, interface{}) bool { return false }), reflect.TypeOf([]apientry.HandlerCBFunc(nil)), reflect.TypeOf([]*MsgA(nil)),
+	reflect.TypeOf(PM(nil)),
 }
 
 // shape op: "shape exp=<0|1> var=<0|1> ix=<i,j,k,...>"; the facts are appended by the generator
@@ -338,6 +390,8 @@ func mkSer(n string) serialize.Serializer {
 		return sjson.GetDefaultSerializer()
 	case "proto":
 		return sproto.GetDefaultSerializer()
+	case "panicser":
+		return panicSer{}
 	}
 	return nil
 }
@@ -364,11 +418,13 @@ func mkArg(n string) interface{} {
 	case "nilA":
 		var p *MsgA
 		return p
+	case "pmA":
+		return PM(&MsgA{Abc: "named", N: 3})
 	}
 	return nil
 }
 
-var argNames = []string{"nil", "MsgA", "MsgB", "Hello", "int", "ppA", "valA", "str", "nilA"}
+var argNames = []string{"nil", "MsgA", "MsgB", "Hello", "int", "ppA", "valA", "str", "nilA", "pmA"}
 
 func class(e error, v interface{}) string {
 	if e != nil {
@@ -403,6 +459,29 @@ func runLater() string {
 // recording actor context of the service the dispatcher answers through
 type recCtx struct {
 	actor.Context
+	msg interface{}
+}
+
+func (c *recCtx) Message() interface{} { return c.msg }
+
+// legacy receivers (reqReceiver.ReceiveRequest: the user code a request falls through to)
+type silent struct{ seen *bool }
+
+func (r *silent) ReceiveRequest(ctx actor.Context, request *servicemsgs.ServiceRequest, rawMsg interface{}) {
+	*r.seen = true
+}
+
+type answering struct {
+	svc  *service.Service
+	seen *bool
+}
+
+func (r *answering) ReceiveRequest(ctx actor.Context, request *servicemsgs.ServiceRequest, rawMsg interface{}) {
+	*r.seen = true
+	prev := R.src
+	R.src = "h"
+	defer func() { R.src = prev }()
+	r.svc.Response(request, service.CodeSucc, "", okValue())
 }
 
 func (c *recCtx) Send(pid *actor.PID, message interface{}) {
@@ -437,17 +516,23 @@ var msgTypes = func() []reflect.Type {
 // decodeHints: what the payload IS for each declared message type, decided by
 // reference decoders called here directly — never through the serializers of
 // utils/serialize, which are code under test:
-//   json : the WHOLE byte string must be one JSON value (encoding/json.Valid) that
-//          encoding/json.Unmarshal stores into the type (leading/trailing white space is fine;
-//          a second document, an extra brace, a trailing comma or other trailing bytes are not)
-//   proto: the type must be a proto.Message and google.golang.org/protobuf/proto.Unmarshal accepts the bytes
+//
+//	json : the WHOLE byte string must be one JSON value (encoding/json.Valid) that
+//	       encoding/json.Unmarshal stores into the type (leading/trailing white space is fine;
+//	       a second document, an extra brace, a trailing comma or other trailing bytes are not)
+//	proto: the type must be a proto.Message and google.golang.org/protobuf/proto.Unmarshal accepts the bytes
+//
 // The value is canonicalised by re-marshalling (digest).
 func decodeHints(ser string, data []byte) string {
-	if ser != "json" && ser != "proto" {
+	if ser != "json" && ser != "proto" && ser != "panicser" {
 		return ""
 	}
 	var sb strings.Builder
 	for _, t := range msgTypes {
+		if ser == "panicser" {
+			fmt.Fprintf(&sb, " d:%s=panic", hx16(t.String()))
+			continue
+		}
 		v := reflect.New(t.Elem()).Interface()
 		r := hx.Guard(func() string {
 			buf := append([]byte(nil), data...)
@@ -520,8 +605,13 @@ func exec(op string) string {
 		} else {
 			c = apientry.NewCollection()
 		}
-		if kvs(ws, "fmt") == "nil" {
+		switch kvs(ws, "fmt") {
+		case "nil":
 			c.SetFormater(nil)
+		case "permval":
+			c.SetFormater(permVal{})
+		case "permall":
+			c.SetFormater(permAll{})
 		}
 		cs.cols[k] = c
 		return "ok"
@@ -532,6 +622,12 @@ func exec(op string) string {
 			return "bad-op"
 		}
 		e := z.mk(hx.KVInt(ws, "eid"), hx.KVInt(ws, "ptr") == 1)
+		switch hx.KVInt(ws, "nil") {
+		case 1: // a typed nil pointer of the entry type
+			e = reflect.Zero(z.full).Interface().(api.IAPIEntry)
+		case 2: // a nil interface
+			e = nil
+		}
 		var opts []apientry.Option
 		for _, w := range ws { // options in the order given
 			switch {
@@ -642,6 +738,36 @@ func exec(op string) string {
 		svc := service.NewService()
 		svc.Context = &recCtx{}
 		req := &servicemsgs.ServiceRequest{Sender: actor.NewPID("verif", "peer"), ReqId: int32(hx.KVInt(ws, "reqid")), Route: route, Body: hx.KVHex(ws, "data")}
+		if v, ok := hx.KV(ws, "snd"); ok && v == "0" {
+			req.Sender = nil // ResponseEx drops every answer to a request without sender
+		}
+		if kvs(ws, "via") == "recv" {
+			// through Service.Receive -> handleRequest: API dispatcher first, then the legacy receiver
+			req.Type = string(gproto.MessageName(&msgs.TestHello{}))
+			legacy := false
+			switch kvs(ws, "legacy") {
+			case "absent":
+				svc.InitReqReceiver(nil)
+			case "answers":
+				svc.InitReqReceiver(&answering{svc: svc, seen: &legacy})
+			default:
+				svc.InitReqReceiver(&silent{seen: &legacy})
+			}
+			p := hx.Guard(func() string {
+				if kvs(ws, "nodisp") != "1" {
+					svc.SetAPIDispatcher(service.NewDispatcher(cols...))
+				}
+				svc.Receive(&recCtx{msg: req})
+				return ""
+			})
+			if p == "" {
+				p = runLater()
+			}
+			if p != "" {
+				p += " "
+			}
+			return showRec(fmt.Sprintf("%slegacy=%d ", p, hx.B2i(legacy)))
+		}
 		ret := false
 		p := hx.Guard(func() string {
 			d := service.NewDispatcher(cols...)
@@ -672,6 +798,7 @@ type genEntry struct {
 	group string
 	nf    string
 	col   int
+	nilK  int // 1: typed nil pointer, 2: nil interface is registered instead of an entry
 }
 
 type gen struct {
@@ -680,6 +807,7 @@ type gen struct {
 	h        *hx.T
 	run      func(op string)
 	entries  []genEntry
+	colFmt   map[int]string // collections that got a formater of the harness's own
 	ncols    int
 	eid      int
 }
@@ -714,6 +842,7 @@ func (g *gen) caseSetup() {
 	h := g.h
 	g.run("reset")
 	g.entries = nil
+	g.colFmt = map[int]string{}
 	g.ncols = 1 + h.R.Intn(2)
 	if h.R.Intn(6) == 0 {
 		g.ncols = 3
@@ -727,6 +856,13 @@ func (g *gen) caseSetup() {
 		} else if h.R.Intn(25) == 0 {
 			op += " fmt=nil"
 			h.Count("col.nilformater")
+		} else if !reg && h.R.Intn(12) == 0 {
+			// a formater of the harness's own: by-value message types are exposed (argType.Elem() panics outside
+			// SafeCall), or every exported method (mt.In(1) panics in Build). Not for registry collections (see nil entries)
+			f := []string{"permval", "permval", "permval", "permall"}[h.R.Intn(4)]
+			op += " fmt=" + f
+			g.colFmt[k] = f
+			h.Count("col.formater-" + f)
 		}
 		if reg {
 			h.Count("col.registry")
@@ -774,6 +910,22 @@ func (g *gen) caseSetup() {
 		}
 		h.Count("entry." + z.name)
 	}
+	// a nil entry (programmer error at start-up): Build panics on it unless its configured group is already
+	// defined. Only in collections built one by one (Registry.Build walks a map: which collections a
+	// panicking Build leaves unbuilt would depend on the iteration order)
+	if !reg && g.raceBase < 0 && h.R.Intn(8) == 0 {
+		z := g.pickZoo()
+		ne := genEntry{z: z, ptr: true, nf: nfPool[h.R.Intn(len(nfPool))], col: h.R.Intn(g.ncols), nilK: 1 + h.R.Intn(2)}
+		if h.R.Intn(2) == 0 {
+			// a group name no other entry uses (with a group that is already defined newService returns before
+			// touching the receiver: proved in the model, but which of the two happens first is not observable
+			// behaviour a rewrite has to keep, so it is not driven)
+			ne.group = "nilgrp"
+		}
+		at := h.R.Intn(len(planned) + 1)
+		planned = append(planned[:at], append([]genEntry{ne}, planned[at:]...)...)
+		h.Count(fmt.Sprintf("entry.nil%d", ne.nilK))
+	}
 	late := h.R.Intn(5) == 0 // one entry is registered only after the first build
 	for i, e := range planned {
 		if late && i == len(planned)-1 && i > 0 {
@@ -799,6 +951,9 @@ func (g *gen) register(e genEntry) {
 	ent := e.z.mk(g.eid, e.ptr)
 	tname := reflect.Indirect(reflect.ValueOf(ent)).Type().Name()
 	op := fmt.Sprintf("entry col=%d eid=%d ty=%s ptr=%d tname=%s", e.col, g.eid, e.z.name, hx.B2i(e.ptr), hx16(tname))
+	if e.nilK != 0 {
+		op = fmt.Sprintf("entry col=%d eid=%d ty=%s ptr=1 tname= nil=%d", e.col, g.eid, e.z.name, e.nilK)
+	}
 	gvia := "none"
 	if e.group != "" || h.R.Intn(10) == 0 {
 		gvia = []string{"group", "group", "name"}[h.R.Intn(3)]
@@ -817,7 +972,9 @@ func (g *gen) register(e genEntry) {
 	h.Count("opt.nf." + e.nf)
 	h.Count("opt.gvia." + gvia)
 	g.run(op)
-	g.entries = append(g.entries, e)
+	if e.nilK == 0 {
+		g.entries = append(g.entries, e)
+	}
 }
 
 func (g *gen) buildAll(reg bool) {
@@ -891,6 +1048,16 @@ func (g *gen) route1() (string, int, *reflect.Method) {
 	if g.aimed || h.R.Intn(3) != 0 { // prefer a method the formater accepts
 		for try := 0; try < 6 && !formater.GetDefaultFormater().IsValidMethod(meth); try++ {
 			meth = e.z.full.Method(h.R.Intn(e.z.full.NumMethod()))
+		}
+	}
+	if g.colFmt[e.col] == "permval" && h.R.Intn(3) == 0 { // a method only the relaxed formater exposes (message by value)
+		for try := 0; try < 12; try++ {
+			c := e.z.full.Method(h.R.Intn(e.z.full.NumMethod()))
+			if (permVal{}).IsValidMethod(c) && !formater.GetDefaultFormater().IsValidMethod(c) {
+				meth = c
+				h.Count("route.by-value-message-method")
+				break
+			}
 		}
 	}
 	m := meth.Name
@@ -972,12 +1139,14 @@ func (g *gen) payloadFor(ser string, t reflect.Type) []byte {
 		return b
 	}
 	switch t.String() {
-	case "*c13.MsgA", "**c13.MsgA":
+	case "*c13.MsgA", "**c13.MsgA", "c13.PM":
 		return []byte(fmt.Sprintf(`{"abc":"a%d","n":%d}`, h.R.Intn(100), h.R.Intn(1000)))
 	case "*c13.MsgB":
 		return []byte(fmt.Sprintf(`{"x":[%d,2],"y":{"abc":"in"}}`, h.R.Intn(9)))
 	case "*int":
 		return []byte(fmt.Sprint(h.R.Intn(1000)))
+	case "*c13.MsgBoom":
+		return []byte(fmt.Sprintf(`{"A":%d}`, h.R.Intn(9)))
 	case "*msgs.TestHello":
 		return []byte(fmt.Sprintf(`{"I":%d,"S":"json hello"}`, h.R.Intn(50)))
 	}
@@ -1134,6 +1303,9 @@ func (g *gen) cszOp() string {
 	} else if ser == "json" && h.R.Intn(10) == 0 {
 		data = g.trailingJunk([]byte(fmt.Sprintf(`{"abc":"j%d","n":%d}`, h.R.Intn(100), h.R.Intn(1000))))
 	}
+	if h.R.Intn(40) == 0 { // a user serializer whose Unmarshal panics (outside SafeCall)
+		ser = "panicser"
+	}
 	cb := g.cbFor(t)
 	h.Count("csz.ser." + ser)
 	h.Count(fmt.Sprintf("csz.cb%d", cb))
@@ -1153,6 +1325,17 @@ func (g *gen) callOp() string {
 				an = n
 				break
 			}
+		}
+	}
+	// assignable but not identical: *MsgA where the named pointer type PM is declared, and the other way round
+	if t.m != nil && t.m.Type.NumIn() >= 3 && h.R.Intn(4) == 0 {
+		switch t.m.Type.In(2) {
+		case reflect.TypeOf(PM(nil)):
+			an = "MsgA"
+			h.Count("call.arg.assignable-not-identical")
+		case reflect.TypeOf(&MsgA{}):
+			an = "pmA"
+			h.Count("call.arg.assignable-not-identical")
 		}
 	}
 	a := mkArg(an)
@@ -1199,8 +1382,29 @@ func (g *gen) dispOp() string {
 	}
 	h.Count(fmt.Sprintf("disp.notify%d", hx.B2i(reqid == 0)))
 	h.Count(fmt.Sprintf("disp.ncols%d", len(cols)))
-	return fmt.Sprintf("disp cols=%s route=%s reqid=%d beh=%s rc=%s data=%s%s", strings.Join(cols, ","), hx16(t.route), reqid, beh,
-		hx16(reflect.TypeOf(service.NewRemoteContext()).String()), hx.Hex(data), decodeHints("proto", data))
+	extra := ""
+	if h.R.Intn(12) == 0 {
+		extra += " snd=0"
+		h.Count("disp.no-sender")
+	}
+	route := t.route
+	if h.R.Intn(3) == 0 {
+		// through Service.Receive/handleRequest; the body always deserialises (a failing remote.Deserialize is C07's)
+		data = g.payloadFor("proto", nil)
+		legacy := []string{"silent", "silent", "absent", "answers", "answers"}[h.R.Intn(5)]
+		extra += " via=recv legacy=" + legacy
+		h.Count("disp.via-receive.legacy-" + legacy)
+		if h.R.Intn(10) == 0 {
+			extra += " nodisp=1"
+			h.Count("disp.via-receive.no-dispatcher")
+		}
+		if h.R.Intn(12) == 0 {
+			route = ""
+			h.Count("disp.via-receive.empty-route")
+		}
+	}
+	return fmt.Sprintf("disp cols=%s route=%s reqid=%d beh=%s rc=%s%s data=%s%s", strings.Join(cols, ","), hx16(route), reqid, beh,
+		hx16(reflect.TypeOf(service.NewRemoteContext()).String()), extra, hx.Hex(data), decodeHints("proto", data))
 }
 
 func (g *gen) shapeOp() string {
@@ -1214,7 +1418,7 @@ func (g *gen) shapeOp() string {
 	if nin >= 3 && h.R.Intn(3) != 0 {
 		ix[0] = 0
 		ix[1] = h.Pick(2, 2, 4, 6, 12, 3, 8, 10)
-		ix[2] = h.Pick(13, 13, 15, 16, 22, 14, 21)
+		ix[2] = h.Pick(13, 13, 15, 16, 22, 14, 21, 33)
 		if nin >= 4 {
 			ix[3] = h.Pick(25, 25, 26, 27, 28, 29, 30, 17, 21, 31)
 		}
